@@ -512,7 +512,13 @@ def do_bitpattern(case, ob, site):
     conc = {nm: (i * 5 + 3) % (1 << counts[nm]) for i, nm in enumerate(names)}
     val = H.bitpattern_to_val(pat, **conc)
     pyrtl.reset_working_block()
-    m, fs = pyrtl.match_bitpattern(pyrtl.Const(val, bitwidth=w), pat)
+    # (mpat: the same pattern spelled with the '_' / space separators match_bitpattern ignores)
+    try:
+        m, fs = pyrtl.match_bitpattern(pyrtl.Const(val, bitwidth=w), case.get('mpat', pat))
+    except Exception as e:
+        ob.fact('bitpattern:%s:match_bitpattern-accepts-the-pattern' % pat, False, site + ':match-raises',
+                detail='match_bitpattern(Const(%d, %d), %r) raised %s: %s' % (val, w, case.get('mpat', pat), type(e).__name__, e))
+        return
     o = pyrtl.Output(1, 'm')
     o <<= m
     outs = {}
@@ -579,6 +585,9 @@ def cases(tier, seed):
     # any alphanumeric character other than 0/1 names a field: upper case, mixed case (distinct fields), late letters
     for p in ('R', 'rR', '1RR0dd', 'Aa1aA', 'Z0z', 'aB1Ab0', 'xXx', 'Q1Q'):
         out.append({'k': 'bitpattern', 'pat': p})
+    # decoding through a pattern with readability separators to the right / left of / inside fields
+    for mp in ('0aa_b0', 'aa_b0', 'iii_rr_ss_010', 'a 1_b', 'a b ', '_a_', 'a_a_a', '1_0 a', 'ab_', ' ab', 'a__b_1'):
+        out.append({'k': 'bitpattern', 'pat': mp.replace('_', '').replace(' ', ''), 'mpat': mp})
     return out
 
 
